@@ -278,7 +278,10 @@ ALL = [f"C{i:02d}" for i in range(1, 21)]
 LATER = {
     "C01": " Also: start-up rewrites the document root to '/' only where chroot has succeeded; content that passed the filter is "
            "looked up only when it also starts with '/' (root and selector are joined as text).",
-    "C11": " Also: nothing on the failure path of a cache load formats with request text as the format string.",
+    "C02": " Also: the connection handler shows the protocols the whole first line (no length bound).",
+    "C08": " Also: sidecar lines end at the line feed only (sidecar reader evaluated).",
+    "C13": " Also: data is never part of a format string that builds markup.",
+    "C11": " Also: the cache file is written once per generated listing, after the last change. Also: nothing on the failure path of a cache load formats with request text as the format string.",
     "C05": " Also: WAP recognition followed by handle() takes the prefix off once (evaluated in that order).",
     "C14": " Also: what a worker thread runs on the shared server object only reads it.",
     "C03": " Also: the not-found exception's text is total (evaluated on selectors with % and braces); request text is never a format "
@@ -287,22 +290,23 @@ LATER = {
     "C04": " Also: document bytes reach the client through the response file object only (no fileno()/sendfile/os.write below "
            "the TLS layer); the MIME tables are asked about selectors, not bare names; a file is a mailbox only if its first line is an "
            "mbox envelope line (evaluated).",
-    "C06": " Also: no program run for a request is read in text mode; a request body is read to its announced length.",
+    "C06": " Also: no program run for a request is read in text mode; a request body is read to its announced length; the search string reaches "
+           "the handler as typed (Gemini and HTTP handle() evaluated).",
     "C07": " Also: the ignore pattern is applied to the whole name from its start; link files are decoded like directory names; "
-           "ordinary one-letter and dotted names pass the selector filter (evaluated); no set is iterated on the listing path.",
+           "ordinary one-letter and dotted names pass the selector filter (evaluated); no set is iterated on the listing path; a dot-file the ignore pattern matches is not parsed as a link file.",
     "C09": " Also: which requests are rendered from a gophermap (directory holding one, regular *.gophermap file) is evaluated on "
            "stat/selector scenarios.",
     "C10": " Also: nothing touches the cache file's time stamp except a save.",
-    "C12": " Also: the log routine used by the not-found exception is total on texts with format characters, and so is the exception's own text (evaluated).",
+    "C12": " Also: the log routine used by the not-found exception is total on texts with format characters, and so is the exception's own text (evaluated); names bound in a try body are bound on every way out of its handlers.",
     "C15": " Also: entries are populated through the handler's own file-system view; the block of an empty or blank side file "
            "is rendered (getblock evaluated with the real accessors).",
     "C16": " Also: entries inside an archive are populated through the archive view; members are opened by the name the index "
            "gave, not by the request path; the archive view keeps no module-level tables between requests.",
-    "C17": " Also: tal:define statements are evaluated in order, each local unless it says global (compiler evaluated); a path step the value does not have is a missing path (evaluated).",
+    "C17": " Also: tal:define statements are evaluated in order, each local unless it says global (compiler evaluated); a path step the value does not have is a missing path (evaluated); slot fillers are cleared after the expansion they were given to.",
     "C18": " Also: attribute values are taken as html.parser hands them over on every interpreter from 3.7 on (version test and "
-           "start-tag callback evaluated for nine interpreter versions).",
+           "start-tag callback evaluated for nine interpreter versions); the scope stack is popped only after the element's locals.",
     "C19": " Also: no privileged call sits in a with block whose manager can swallow an exception (suppress, ExitStack callbacks "
-           "that can return true, repo managers).",
+           "that can return true, repo managers); a failed bind propagates and nothing binds later.",
     "C20": " Also: no context manager of the server swallows what is raised in its block; the connection handler's output file is "
            "unbuffered or flushed inside its try, so a write error cannot surface in finish(); SIGPIPE stays ignored.",
 }
